@@ -265,5 +265,14 @@ func runCase(fn func(), c Case) (outcome string) {
 		}
 	}()
 	fn()
+	if allocLim > 0 {
+		var ms runtime.MemStats
+		runtime.ReadMemStats(&ms)
+		// the engine counts elements of the largest single allocation; natively the total
+		// number of bytes allocated since AllocLimit is an upper estimate with some slack
+		if d := ms.TotalAlloc - allocMem; d > uint64(allocLim)*16+(1<<20) {
+			return "alloc-exceeded bytes=" + strconv.FormatUint(d, 10)
+		}
+	}
 	return "ok"
 }
